@@ -255,6 +255,13 @@ func tbC05(c *Ctx, env *TBEnv, nprogs int) {
 						Input: input, Impl: inc.Output})
 				}
 			}
+			if res.Final != "complete" && strings.Contains(res.Incs[len(res.Incs)-1].Output, "is not a pipestance directory") {
+				// mrp was killed while it was still creating the pipestance directory (before _invocation existed)
+				r.violate(Violation{Kind: "property", Key: "C05:tierB-killed-during-pipestance-creation",
+					What:  "mrp was killed while creating the pipestance directory; the restarted mrp refuses the half-created directory ('is not a pipestance directory') and cannot create it anew either",
+					Input: input, Impl: res.Incs[len(res.Incs)-1].Output})
+				continue
+			}
 			if res.Final != "complete" {
 				r.violate(Violation{Kind: "property", Key: "C05:tierB-not-completed:" + res.Final,
 					What:  "after interruption and restart the real mrp did not complete the pipestance",
